@@ -122,11 +122,14 @@ pub enum Tamper {
     SignedObjectMissing,
     /// generation 3: honestly signed child of S2 with a new master commit
     AheadV3,
+    /// generation 3: honestly signed child of S2 whose master is rolled back to the generation-1
+    /// commit (an ancestor of what generation 2 signed)
+    AheadRollback,
     /// no reference of this namespace exists on the server
     Absent,
 }
 
-pub const ALL_TAMPERS: [Tamper; 15] = [
+pub const ALL_TAMPERS: [Tamper; 16] = [
     Tamper::Honest,
     Tamper::ExtraUnsignedRef,
     Tamper::RefMoved,
@@ -141,6 +144,7 @@ pub const ALL_TAMPERS: [Tamper; 15] = [
     Tamper::Diverged,
     Tamper::SignedObjectMissing,
     Tamper::AheadV3,
+    Tamper::AheadRollback,
     Tamper::Absent,
 ];
 
@@ -161,6 +165,7 @@ impl Tamper {
             Tamper::Diverged => "diverged",
             Tamper::SignedObjectMissing => "signed-object-missing",
             Tamper::AheadV3 => "ahead-v3",
+            Tamper::AheadRollback => "ahead-rollback",
             Tamper::Absent => "absent",
         }
     }
@@ -557,6 +562,9 @@ impl Fixture {
             let v3_tbl = with(&v2, &[("refs/heads/master", Some(c3))]);
             let v3 = handmade(&v3_tbl, &[], dev, false, s2);
             offered.insert(Tamper::AheadV3, with(&v3_tbl, &[(SIGREFS, Some(v3))]));
+            let back_tbl = with(&v2, &[("refs/heads/master", Some(c1))]);
+            let back = handmade(&back_tbl, &[], dev, false, s2);
+            offered.insert(Tamper::AheadRollback, with(&back_tbl, &[(SIGREFS, Some(back))]));
             offered.insert(Tamper::Absent, NsRefs::new());
 
             owners.push(Owner { slot, key: pk, is_delegate, s1, s2, offered, nowhere });
